@@ -1426,7 +1426,11 @@ class UnitDatabase(Singleton):
         if exp == 1 and (is_simple or zero == 0.0):
             return self.Convert(quantity_type, from_unit, to_unit, value)
         ratio = self.Convert(quantity_type, from_unit, to_unit, 1.0) - zero
-        return value * ratio**exp
+        scale = ratio**exp
+        if value.__class__ in (list, tuple):
+            # the values of a list / tuple Array handled together with a numpy one
+            return value.__class__(v * scale for v in value)
+        return value * scale
 
     def _DoOperationResultingInNewQuantity(
         self,
